@@ -48,7 +48,7 @@ Qed.
 Lemma plain_roundtrip_lemma v d r :
   plain_pair v d r -> exists s, plain_marshal v = Ok s /\ plain_unmarshal s d = Ok r.
 Proof.
-  intros H. destruct H; cbn [plain_marshal plain_unmarshal].
+  intros H. unfold plain_unmarshal. destruct H; cbn [plain_marshal plain_unmarshal_gen].
   - eexists; split; reflexivity.
   - eexists; split; reflexivity.
   - eexists; split; reflexivity.
@@ -60,12 +60,22 @@ Proof.
     cbn [parse_into]. rewrite (parse_into_roundtrip l d s H H0 Hs). reflexivity.
 Qed.
 
-Lemma plain_decode_total_lemma data d :
-  dst_nonnil d = true -> plain_unmarshal data d <> Panic.
+Lemma plain_decode_total_lemma data d : plain_unmarshal data d <> Panic.
 Proof.
-  destruct d; cbn [dst_nonnil plain_unmarshal]; intros H; try discriminate.
+  destruct d; cbn [plain_unmarshal plain_unmarshal_gen]; try discriminate.
   destruct (parse_into data l false); discriminate.
 Qed.
+
+(* the pinned code: total exactly away from nil *string / *[]byte destinations *)
+Lemma plain_decode_total_prefix_lemma data d :
+  dst_nonnil d = true -> plain_unmarshal_prefix data d <> Panic.
+Proof.
+  destruct d; cbn [dst_nonnil plain_unmarshal_prefix plain_unmarshal_gen]; intros H; try discriminate.
+  destruct (parse_into data l false); discriminate.
+Qed.
+
+Lemma plain_total_refuted_lemma : exists data d, plain_unmarshal_prefix data d = Panic.
+Proof. exists [], DStrNil. reflexivity. Qed.
 
 (* whatever the bytes, a successful decode leaves a value of the destination's type, with
    every integer inside the range of its width *)
